@@ -24,8 +24,8 @@ from .. import units, guards, effects
 MANIFEST = {
     "level": "other",
     "technique": "static analysis: term matching for the reflection, literal-table audit of the abridged series against the full series with amplitude-derived tolerances, extraction of the effective frame matrices from symbolically evaluated code and orthogonality check (numeric 1e-6 / symbolic), non-interference (slicing) of the rotation on the observation epoch, polynomial extraction and exact comparison with the IAU obliquity cubic, triangle-inequality bound over the nutation tables",
-    "text": "Reflection, orthogonality of every frame matrix as actually applied by the code (a clobbered in-place product is not orthogonal), independence of the equinox rotation from the observation time, frequency agreement of the abridged J2000 series with the full one, the obliquity polynomial and the nutation bounds are decided from source and tables for all epochs. The 2 arcsec / 1e-5 AU agreement of positions across frames and the coarse-vs-VSOP agreement are numerical and not decided beyond these necessary conditions.",
-    "note": "Trusted oracles: IAU 1976 obliquity cubic; 1 rad = 206264.806 arcsec. Undecided: frame agreement to 2 arcsec, norm of rectangular coordinates (the mean-equinox variant drops cos(beta)), coarse solar formulas vs VSOP87.",
+    "text": "Reflection, orthogonality of every frame matrix as actually applied by the code (a clobbered in-place product is not orthogonal), independence of the equinox rotation from the observation time, frequency agreement of the abridged J2000 series with the full one, the obliquity polynomial and the nutation bounds are decided from source and tables for all epochs. The low-accuracy solar longitude, radius vector and apparent longitude are shown to be Meeus' ch. 25 expressions (trigonometric normal form; the book states 0.01 degree, which is what leaves room inside the property's 0.02 degree against VSOP87) - a term that is not identically the recipe is reported only with an epoch in 1800-2200 at which the two expressions differ by more than 0.005 degree. The 2 arcsec / 1e-5 AU agreement of positions across frames is numerical and not decided beyond these necessary conditions.",
+    "note": "Trusted oracles: IAU 1976 obliquity cubic; 1 rad = 206264.806 arcsec. Undecided: frame agreement to 2 arcsec, norm of rectangular coordinates (the mean-equinox variant drops cos(beta)); the 0.01 degree accuracy of the low-accuracy recipe itself is the book's statement (trusted).",
 }
 ARCSEC = 206264.806247
 IAU76 = [84381.448, -46.8150, -0.00059, 0.001813]
@@ -34,12 +34,14 @@ IAU76 = [84381.448, -46.8150, -0.00059, 0.001813]
 def run(repo, rep, tier):
     rep.decided = ["D1 reflection", "D2 J2000 series frequencies / shared radius series", "D3 frame matrices orthogonal, epoch-independent, polynomial copies",
                    "D4 mean obliquity vs IAU cubic (3 arcsec)", "D5 nutation bounds, argument rows, shared polynomials", "D6 true obliquity is the sum"]
-    rep.undecided = ["2 arcsec / 1e-5 AU agreement across frames", "norm of rectangular coordinates", "coarse vs VSOP within 0.02 deg"]
+    rep.undecided = ["2 arcsec / 1e-5 AU agreement across frames", "norm of rectangular coordinates", "coarse vs VSOP within 0.02 deg (decided: the coarse formulas are Meeus' ch. 25 recipe, whose stated accuracy is 0.01 deg)"]
+    rep.decided.append("D7 low-accuracy solar longitude, radius and apparent longitude are Meeus' ch. 25 expressions (R-COARSE)")
     reflection(repo, rep)
     series(repo, rep)
     matrices(repo, rep)
     obliquity(repo, rep)
     nutation(repo, rep)
+    coarse(repo, rep)
     fam = [("Sun", "Sun." + q) for q in ("geometric_geocentric_position", "apparent_geocentric_position", "rectangular_coordinates_mean_equinox",
                                          "rectangular_coordinates_j2000", "rectangular_coordinates_b1950", "rectangular_coordinates_equinox",
                                          "true_longitude_coarse", "apparent_longitude_coarse", "apparent_rightascension_declination_coarse")] + \
@@ -50,6 +52,97 @@ def run(repo, rep, tier):
     guards.check_functions(repo, rep, fam)
     effects.check_functions(repo, rep, fam)
     return "other"
+
+
+def coarse(repo, rep):
+    """R-COARSE.  The low-accuracy solar position is Meeus' ch. 25 recipe: L0 + C, with the equation of the centre C a three-term sine
+    series in the mean anomaly M, radius from the true anomaly M + C, apparent longitude by the -0.00569 - 0.00478 sin(Omega) correction.
+    The book gives its accuracy as 0.01 degree, which is what leaves room inside the property's 0.02 degree against VSOP87.  The extracted
+    terms are compared with the recipe by the trigonometric normal form (sin 2M = 2 sin M cos M etc. are identities there).  A term that is
+    not identically the recipe is reported only with a witness: an epoch in 1800-2200 at which the two differ by more than 0.005 degree
+    (2e-6 AU) - found by evaluating the difference of the two terms, not the library."""
+    from ..poly import eval_numeric
+    rep.rule("R-COARSE", "the low-accuracy solar longitude / radius are Meeus' ch. 25 expressions (trigonometric normal form); a mismatch is reported with an epoch "
+                         "in 1800-2200 at which the difference exceeds 0.005 deg / 2e-6 AU")
+    N = lambda x: T.num(Fraction(x))
+    J = T.sym("J")
+    Tc = T.mul(T.add(J, N("-2451545")), T.num(Fraction(1, 36525)))
+    L0 = T.call("pos", T.add(N("280.46646"), T.mul(Tc, T.add(N("36000.76983"), T.mul(N("0.0003032"), Tc)))))
+    M = T.add(N("357.52911"), T.mul(Tc, T.add(N("35999.05029"), T.mul(N("-0.0001537"), Tc))))
+    E = T.add(N("0.016708634"), T.mul(Tc, T.add(N("-0.000042037"), T.mul(N("-0.0000001267"), Tc))))
+
+    def S(k):
+        return T.call("sin", T.mul(T.num(k), M, D2R))
+    C = T.add(T.mul(T.add(N("1.914602"), T.mul(Tc, T.add(N("-0.004817"), T.mul(N("-0.000014"), Tc)))), S(1)),
+              T.mul(T.add(N("0.019993"), T.mul(N("-0.000101"), Tc)), S(2)), T.mul(N("0.000289"), S(3)))
+    ref_lon = T.add(L0, C)
+    ref_r = T.mul(N("1.000001018"), T.add(T.ONE, T.neg(T.mul(E, E))), T.power(T.add(T.ONE, T.mul(E, T.call("cos", T.mul(T.add(M, C), D2R)))), T.num(-1)))
+    OM = T.add(N("125.04"), T.mul(N("-1934.136"), Tc))
+    ref_app = T.add(ref_lon, N("-0.00569"), T.mul(N("-0.00478"), T.call("sin", T.mul(OM, D2R))))
+    jobs = [("Sun.true_longitude_coarse", 1, ref_lon, "true longitude", 0.005), ("Sun.true_longitude_coarse", 2, ref_r, "radius vector", 2e-6),
+            ("Sun.apparent_longitude_coarse", 1, ref_app, "apparent longitude", 0.005)]
+    for q, comp, ref, what, tol in jobs:
+        site = "Sun." + q
+        rep.fn("Sun", q)
+        try:
+            t = ret_term(repo, "Sun", q, arg_terms={"epoch": ("epoch", J)})
+        except AnalysisError as e:
+            rep.inconcl("R-COARSE", site, "%s: not extractable: %s" % (what, e))
+            continue
+        if t[0] != "tuple" or len(t) <= comp:
+            rep.inconcl("R-COARSE", site, "%s: result is not a tuple with that component" % what)
+            continue
+        code = t[comp][1] if t[comp][0] == "angle" else t[comp]
+        if code[0] == "call" and code[1] == "red" and len(code) == 3:
+            code = code[2]
+        # the apparent longitude is built on the true longitude of the sibling routine: substitute that routine's own term
+        sib = [x for x in T.walk(code) if x[0] == "idx" and x[1][0] == "call" and x[1][1].endswith("true_longitude_coarse") and x[2] == T.num(0)]
+        if sib:
+            try:
+                tl = ret_term(repo, "Sun", "Sun.true_longitude_coarse", arg_terms={"epoch": ("epoch", J)})
+                lon_t = tl[1][1] if tl[1][0] == "angle" else tl[1]
+                code = T.subst(code, {x: lon_t for x in set(sib)})
+            except AnalysisError:
+                pass
+
+        def nested(x):
+            return [y for y in T.walk(x) if y[0] == "call" and y[1] in ("sin", "cos") and len(y) == 3
+                    and any(z[0] == "call" and z[1] in ("sin", "cos") for z in T.walk(y[2]))]
+        try:
+            nc, nr = nested(code), nested(ref)
+            if len(set(nc)) == 1 and len(set(nr)) == 1 and nc[0][1] == nr[0][1]:
+                # one trigonometric function of an argument that itself contains sines (cos of the true anomaly): arguments compared first
+                k_ = T.sym("NESTED_TRIG")
+                same = Algebra(atomize=True).equal(nc[0][2], nr[0][2]) and \
+                    Algebra(atomize=True).equal(T.subst(code, {nc[0]: k_}), T.subst(ref, {nr[0]: k_}))
+            else:
+                same = Algebra(atomize=True).equal(code, ref)
+        except Exception as e:
+            same = None
+        if same:
+            rep.ok("R-COARSE", site + ":" + what, "%s == Meeus ch. 25 (trigonometric normal form)" % what, obligation=True)
+            continue
+        # a witness: evaluate both terms (pos() is the identity modulo 360) on epochs every 9 days through 1800-2200
+        worst = None
+        try:
+            strip = lambda x: T.subst(x, {y: y[2] for y in T.walk(x) if y[0] == "call" and y[1] in ("pos", "red") and len(y) == 3})
+            a_, b_ = strip(code), strip(ref)
+            j = 2378497.0
+            while j < 2524594.0:
+                d = eval_numeric(a_, {"J": j}) - eval_numeric(b_, {"J": j})
+                if comp != 2:
+                    d = (d + 180.0) % 360.0 - 180.0
+                if worst is None or abs(d) > abs(worst[0]):
+                    worst = (d, j)
+                j += 9.0
+        except Exception as e:
+            worst = None
+        if worst is not None and abs(worst[0]) > tol:
+            rep.violation("R-COARSE", site, "coarse:" + what.replace(" ", "-"),
+                          "the %s is not Meeus' low-accuracy expression: at JDE %.1f the two differ by %.5f %s (the recipe itself is good to 0.01 deg, the property allows 0.02 deg "
+                          "against VSOP87)" % (what, worst[1], worst[0], "AU" if comp == 2 else "deg"), obligation=True)
+        else:
+            rep.inconcl("R-COARSE", site, "%s: not identical to the recipe as a term%s" % (what, "" if worst is None else "; the largest difference found over 1800-2200 is %.2g" % abs(worst[0])))
 
 
 def reflection(repo, rep):
